@@ -10,7 +10,8 @@
 //!   op 3 Default::default()
 //!   op 4 a `const` ITEM initialised with const_default() (fixed set of (T, N));
 //!        the item is additionally compared element-wise at COMPILE time (const bool)
-//!   ty   0 u8, 1 u64, 2 [u8; 3], 3 GenericArray<u8, U3>, 4 Fd, 5 Keep, 6 W, 7 GenericArray<W, U3>
+//!   ty   0 u8, 1 u64, 2 [u8; 3], 3 GenericArray<u8, U3>, 4 Fd, 5 Keep, 6 W, 7 GenericArray<W, U3>,
+//!        8 KeepBig (Keep plus 20 bytes of key material: wider than a machine word, no drop glue)
 //! Observables: [N, element codes...] (N = Unsigned::USIZE of the type).
 //! Direct oracles: every element after zeroize() equals the zeroized clone of the
 //! element before; const default == T::DEFAULT == Default::default() element-wise.
@@ -121,6 +122,29 @@ impl Default for Keep {
     }
 }
 
+/// Keep, but wider than a machine word (24 bytes, plain data): the zeroized value still depends on
+/// the element (the id stays), the key material must end up zero in EVERY element
+#[derive(Clone, PartialEq, Debug)]
+struct KeepBig {
+    id: u16,
+    secret: u16,
+    key: [u8; 20],
+}
+impl Zeroize for KeepBig {
+    fn zeroize(&mut self) {
+        self.secret.zeroize();
+        self.key.zeroize();
+    }
+}
+impl ConstDefault for KeepBig {
+    const DEFAULT: Self = KeepBig { id: 3, secret: 5, key: [0; 20] };
+}
+impl Default for KeepBig {
+    fn default() -> Self {
+        KeepBig { id: 3, secret: 5, key: [0; 20] }
+    }
+}
+
 /// one byte with a non-zero constant default
 #[derive(Clone, Copy, PartialEq, Debug)]
 struct W(u8);
@@ -204,6 +228,21 @@ impl Elem for Keep {
         self.id as i128 + 65536 * self.secret as i128
     }
 }
+impl Elem for KeepBig {
+    const BITS: u32 = 32;
+    fn dec(c: i128) -> Self {
+        // prior contents: key material derived from the code, never all zero
+        let b = (c as u8) | 1;
+        KeepBig { id: c as u16, secret: (c >> 16) as u16, key: [b; 20] }
+    }
+    fn enc(&self) -> i128 {
+        // key material that is not wiped shows as an out-of-range code
+        if self.key.iter().any(|k| *k != 0) {
+            return (1i128 << 40) + self.id as i128;
+        }
+        self.id as i128 + 65536 * self.secret as i128
+    }
+}
 impl Elem for W {
     const BITS: u32 = 8;
     fn dec(c: i128) -> Self {
@@ -224,7 +263,7 @@ impl Elem for GenericArray<W, U3> {
     }
 }
 
-const NTY: i128 = 8;
+const NTY: i128 = 9;
 fn bits_of(ty: i128) -> u32 {
     match ty {
         0 => <u8 as Elem>::BITS,
@@ -234,7 +273,8 @@ fn bits_of(ty: i128) -> u32 {
         4 => <Fd as Elem>::BITS,
         5 => <Keep as Elem>::BITS,
         6 => <W as Elem>::BITS,
-        _ => <GenericArray<W, U3> as Elem>::BITS,
+        7 => <GenericArray<W, U3> as Elem>::BITS,
+        _ => <KeepBig as Elem>::BITS,
     }
 }
 
@@ -436,6 +476,7 @@ fn run_case(case: &[i128]) -> Vec<i128> {
         5 => run_ty::<Keep>(digits, op, prior),
         6 => run_ty::<W>(digits, op, prior),
         7 => run_ty::<GenericArray<W, U3>>(digits, op, prior),
+        8 => run_ty::<KeepBig>(digits, op, prior),
         _ => panic!("bad element type {}", ty),
     };
     r.expect("length type not monomorphised")
